@@ -8,7 +8,7 @@ From BVGen Require Import StatusTable.
 
 Definition set_faults (cfg : config) (f : hookname -> nat -> bool) : config :=
   mkConfig (c_dry cfg) (c_stop cfg) (c_show_skipped cfg) (c_expr cfg) (c_hooks cfg) f
-           (c_hook_cleanups cfg) (c_wip cfg) (c_cont cfg).
+           (c_hook_cleanups cfg) (c_wip cfg) (c_cont cfg) (c_excl cfg).
 
 (* ------------------------------------------------------------------ (B) frames *)
 Definition na_steps (steps : list step) : bool :=
@@ -121,7 +121,7 @@ Lemma run_scenario_frame c st id all_steps oe eff own st' res fld ev :
   run_scenario c st id all_steps oe eff own = (st', res, fld, ev) -> st' = st.
 Proof.
   intros Hn. unfold run_scenario. cbv zeta.
-  set (hc := negb (c_dry c) && c_expr c eff).
+  set (hc := negb (c_dry c) && sel c eff).
   assert (G1 : forall st1 hf e, (if hc then
         let '(sa, b1, e1) := run_tag_hooks c (push st) HBeforeTag own in
         let '(sb, b2, e2) := run_hook c sa HBeforeScenario id in (sb, b1 || b2, e1 ++ e2)
@@ -252,7 +252,7 @@ Qed.
 
 (* run_rule, opened up along its phases *)
 Lemma run_rule_phases c st r anc inh fhb :
-  let hc := negb (c_dry c) && rule_should_run c anc r in
+  let hc := negb (c_dry c) && rule_runs c anc r in
   let '(st1, hf, evb) := open_phase c (push st) hc HBeforeRule (r_id r) (r_tags r) in
   let skip := if hc then hf || aborted st1 else aborted st in
   let '(st2, rs, itf, evi) :=
@@ -262,7 +262,7 @@ Lemma run_rule_phases c st r anc inh fhb :
   exists res fld ev, run_rule c st r anc inh fhb = (st4, res, fld, ev) /\ rr_items res = rs.
 Proof.
   unfold run_rule, open_phase, close_phase. cbv zeta.
-  destruct (negb (c_dry c) && rule_should_run c anc r).
+  destruct (negb (c_dry c) && rule_runs c anc r).
   - destruct (run_tag_hooks c (push st) HBeforeTag (r_tags r)) as [[sa b1] e1].
     destruct (run_hook c sa HBeforeRule (r_id r)) as [[sb b2] e2].
     match goal with |- context [run_sitems ?a ?b ?c0 ?d ?e ?f] =>
@@ -281,7 +281,7 @@ Lemma run_rule_frame c st r anc inh fhb st' res fld ev :
 Proof.
   intros Hi Hr. unfold na_rule in Hr. apply andb_true_iff in Hr as [Hb Hits].
   pose proof (run_rule_phases c st r anc inh fhb) as P. cbv zeta in P.
-  destruct (open_phase c (push st) (negb (c_dry c) && rule_should_run c anc r) HBeforeRule (r_id r) (r_tags r))
+  destruct (open_phase c (push st) (negb (c_dry c) && rule_runs c anc r) HBeforeRule (r_id r) (r_tags r))
     as [[st1 hf] evb] eqn:E1.
   apply open_phase_grows in E1; [|reflexivity].
   match type of P with context [run_sitems ?a ?b ?c0 ?d ?e ?f] =>
@@ -327,7 +327,7 @@ Lemma run_feature_phases c st f :
   let '(st1, hf, evb) := open_phase c (push st) hc HBeforeFeature (f_id f) (f_tags f) in
   let skip := if hc then hf || aborted st1 else aborted st in
   let '(st2, rs, itf, evi) :=
-    run_fitems c st1 (opt_steps (f_bg f)) (match f_bg f with Some _ => true | None => false end)
+    run_fitems (items_cfg c hc) st1 (opt_steps (f_bg f)) (match f_bg f with Some _ => true | None => false end)
                (f_tags f) (f_items f) skip in
   let '(st3, hf2, eva) := close_phase c st2 hc hf HAfterFeature (f_id f) (f_tags f) in
   let '(st4, cr, evp) := pop st3 in
@@ -400,13 +400,15 @@ Lemma sf_stop : c_stop cfg2 = c_stop cfg. Proof. reflexivity. Qed.
 Lemma sf_show : c_show_skipped cfg2 = c_show_skipped cfg. Proof. reflexivity. Qed.
 Lemma sf_expr : c_expr cfg2 = c_expr cfg. Proof. reflexivity. Qed.
 Lemma sf_wip : c_wip cfg2 = c_wip cfg. Proof. reflexivity. Qed.
+Lemma sf_sel eff : sel cfg2 eff = sel cfg eff. Proof. reflexivity. Qed.
+Lemma sf_feature_runs b f : feature_runs cfg2 b f = feature_runs cfg b f. Proof. reflexivity. Qed.
 Lemma sf_cont : c_cont cfg2 = c_cont cfg. Proof. reflexivity. Qed.
-Lemma sf_rule_should_run anc r : rule_should_run cfg2 anc r = rule_should_run cfg anc r.
+Lemma sf_rule_should_run anc r : rule_runs cfg2 anc r = rule_runs cfg anc r.
 Proof. reflexivity. Qed.
 Lemma sf_feature_should_run f : feature_should_run cfg2 f = feature_should_run cfg f.
 Proof. reflexivity. Qed.
 
-Ltac sf := rewrite ?sf_dry, ?sf_stop, ?sf_show, ?sf_expr, ?sf_wip, ?sf_cont,
+Ltac sf := rewrite ?sf_dry, ?sf_stop, ?sf_show, ?sf_expr, ?sf_wip, ?sf_cont, ?sf_sel, ?sf_feature_runs,
                    ?sf_rule_should_run, ?sf_feature_should_run.
 
 Lemma run_hook_local st h k : same_at h k -> run_hook cfg2 st h k = run_hook cfg st h k.
@@ -449,7 +451,7 @@ Lemma run_scenario_local st id all_steps oe eff own : agree_scen id all_steps ow
 Proof.
   intros [(Ht & Hb & Ha) Hs]. unfold run_scenario. cbv zeta. sf.
   rewrite (run_tag_hooks_local HBeforeTag own) by (intros t Hin; apply (Ht t Hin)).
-  destruct (negb (c_dry cfg) && c_expr cfg eff).
+  destruct (negb (c_dry cfg) && sel cfg eff).
   - destruct (run_tag_hooks cfg (push st) HBeforeTag own) as [[sa b1] e1].
     rewrite run_hook_local by assumption.
     destruct (run_hook cfg sa HBeforeScenario id) as [[sb b2] e2].
@@ -518,7 +520,7 @@ Lemma run_rule_local st r anc inh fhb : agree_rule inh r ->
 Proof.
   intros [(Ht & Hb & Ha) Hits]. unfold run_rule. cbv zeta. sf.
   rewrite (run_tag_hooks_local HBeforeTag (r_tags r)) by (intros t Hin; apply (Ht t Hin)).
-  destruct (negb (c_dry cfg) && rule_should_run cfg anc r).
+  destruct (negb (c_dry cfg) && rule_runs cfg anc r).
   - destruct (run_tag_hooks cfg (push st) HBeforeTag (r_tags r)) as [[sa b1] e1].
     rewrite run_hook_local by assumption.
     destruct (run_hook cfg sa HBeforeRule (r_id r)) as [[sb b2] e2].
@@ -550,24 +552,6 @@ Proof.
   - rewrite run_fitem_local by (apply H; now left).
     destruct (run_fitem cfg st bg hb anc it) as [[[st1 res] fld] ev].
     sf. rewrite IH by assumption. reflexivity.
-Qed.
-
-Lemma run_feature_local st f : agree_feature f -> run_feature cfg2 st f = run_feature cfg st f.
-Proof.
-  intros [(Ht & Hb & Ha) Hits]. unfold run_feature. cbv zeta. sf.
-  rewrite (run_tag_hooks_local HBeforeTag (f_tags f)) by (intros t Hin; apply (Ht t Hin)).
-  destruct (negb (c_dry cfg) && feature_should_run cfg f).
-  - destruct (run_tag_hooks cfg (push st) HBeforeTag (f_tags f)) as [[sa b1] e1].
-    rewrite run_hook_local by assumption.
-    destruct (run_hook cfg sa HBeforeFeature (f_id f)) as [[sb b2] e2].
-    rewrite run_fitems_local by assumption.
-    match goal with |- context [run_fitems cfg ?b ?c0 ?d ?e ?f0 ?g] =>
-      destruct (run_fitems cfg b c0 d e f0 g) as [[[st2 rs] itf] evi] end.
-    rewrite run_hook_local by assumption.
-    destruct (run_hook cfg st2 HAfterFeature (f_id f)) as [[sc b3] e3].
-    rewrite (run_tag_hooks_local HAfterTag (f_tags f)) by (intros t Hin; apply (Ht t Hin)).
-    reflexivity.
-  - rewrite run_fitems_local by assumption. reflexivity.
 Qed.
 
 (* ------------------------------------------------------------------ (C) non-interference *)
@@ -718,7 +702,7 @@ Proof.
     pose proof (run_rule_phases cfg2 st r anc inh fhb) as P2.
     cbv zeta in P1, P2. rewrite sf_dry, sf_rule_should_run in P2.
     rewrite open_phase_local in P2 by assumption.
-    destruct (open_phase cfg (push st) (negb (c_dry cfg) && rule_should_run cfg anc r) HBeforeRule (r_id r) (r_tags r))
+    destruct (open_phase cfg (push st) (negb (c_dry cfg) && rule_runs cfg anc r) HBeforeRule (r_id r) (r_tags r))
       as [[st1 hf] evb] eqn:Eo.
     apply open_phase_grows in Eo; [|reflexivity]. destruct Eo as (Ab & _). cbn in Ab.
     match type of P1 with context [run_sitems ?a ?b ?c0 ?d ?e ?f] =>
@@ -777,6 +761,48 @@ Proof.
       * eapply IH; eauto.
 Qed.
 
+End Local.
+
+(* the feature level: the items of a feature run under [items_cfg] (the exclusions made by the
+   before_feature hook are in force), which has the same hooks and faults *)
+Section LocalRun.
+Variable cfg : config.
+Variable f2 : hookname -> nat -> bool.
+Let cfg2 := set_faults cfg f2.
+Hypothesis Hstop : c_stop cfg = false.
+Local Notation same_at := (same_at cfg f2).
+Local Notation agree_feature := (agree_feature cfg f2).
+Local Notation sim_feature := (sim_feature cfg f2).
+Local Notation run_hook_local := (run_hook_local cfg f2).
+Local Notation run_tag_hooks_local := (run_tag_hooks_local cfg f2).
+Local Notation open_phase_local := (open_phase_local cfg f2).
+
+Lemma sf_dry' : c_dry cfg2 = c_dry cfg. Proof. reflexivity. Qed.
+Lemma sf_stop' : c_stop cfg2 = c_stop cfg. Proof. reflexivity. Qed.
+Lemma sf_show' : c_show_skipped cfg2 = c_show_skipped cfg. Proof. reflexivity. Qed.
+Lemma sf_feature_should_run' f : feature_should_run cfg2 f = feature_should_run cfg f. Proof. reflexivity. Qed.
+Lemma sf_feature_runs' b f : feature_runs cfg2 b f = feature_runs cfg b f. Proof. reflexivity. Qed.
+Lemma sf_items_cfg b : items_cfg cfg2 b = set_faults (items_cfg cfg b) f2. Proof. reflexivity. Qed.
+Ltac sf := rewrite ?sf_dry', ?sf_stop', ?sf_show', ?sf_feature_should_run', ?sf_feature_runs', ?sf_items_cfg.
+
+Lemma run_feature_local st f : agree_feature f -> run_feature cfg2 st f = run_feature cfg st f.
+Proof.
+  intros [(Ht & Hb & Ha) Hits]. unfold run_feature. cbv zeta. sf.
+  rewrite (run_tag_hooks_local HBeforeTag (f_tags f)) by (intros t Hin; apply (Ht t Hin)).
+  destruct (negb (c_dry cfg) && feature_should_run cfg f).
+  - destruct (run_tag_hooks cfg (push st) HBeforeTag (f_tags f)) as [[sa b1] e1].
+    rewrite run_hook_local by assumption.
+    destruct (run_hook cfg sa HBeforeFeature (f_id f)) as [[sb b2] e2].
+    rewrite (RunnerLocal.run_fitems_local (items_cfg cfg true) f2) by exact Hits.
+    match goal with |- context [run_fitems ?a ?b ?c0 ?d ?e ?f0 ?g] =>
+      destruct (run_fitems a b c0 d e f0 g) as [[[st2 rs] itf] evi] end.
+    rewrite run_hook_local by assumption.
+    destruct (run_hook cfg st2 HAfterFeature (f_id f)) as [[sc b3] e3].
+    rewrite (run_tag_hooks_local HAfterTag (f_tags f)) by (intros t Hin; apply (Ht t Hin)).
+    reflexivity.
+  - rewrite (RunnerLocal.run_fitems_local (items_cfg cfg false) f2) by exact Hits. reflexivity.
+Qed.
+
 Lemma sim_run_feature st f s1 r1 fl1 ev1 s2 r2 fl2 ev2 :
   aborted st = false -> na_feature f = true ->
   run_feature cfg st f = (s1, r1, fl1, ev1) ->
@@ -789,7 +815,7 @@ Proof.
     unfold na_feature in Hf. apply andb_true_iff in Hf as [Hbg Hits].
     pose proof (run_feature_phases cfg st f) as P1.
     pose proof (run_feature_phases cfg2 st f) as P2.
-    cbv zeta in P1, P2. rewrite sf_dry, sf_feature_should_run in P2.
+    cbv zeta in P1, P2. rewrite sf_dry', sf_feature_should_run', sf_items_cfg in P2.
     rewrite open_phase_local in P2 by assumption.
     destruct (open_phase cfg (push st) (negb (c_dry cfg) && feature_should_run cfg f) HBeforeFeature (f_id f) (f_tags f))
       as [[st1 hf] evb] eqn:Eo.
@@ -805,7 +831,7 @@ Proof.
     destruct (pop sc) as [[se cre] eve]. destruct (pop sd) as [[sf0 crf] evf].
     destruct P1 as (x1 & y1 & z1 & P1 & Q1). destruct P2 as (x2 & y2 & z2 & P2 & Q2).
     rewrite P1 in E1. rewrite P2 in E2. inversion E1; inversion E2; subst.
-    eapply sim_run_fitems; [ | | |exact Ea|exact Eb]; try assumption.
+    eapply (RunnerLocal.sim_run_fitems (items_cfg cfg (negb (c_dry cfg) && feature_should_run cfg f)) f2 Hstop); [ | | |exact Ea|exact Eb]; try assumption.
     congruence.
 Qed.
 
@@ -853,7 +879,7 @@ Proof.
   eapply sim_run_features; eauto.
 Qed.
 
-End Local.
+End LocalRun.
 
 Lemma sim_list_nth {A R : Type} (P : A -> R -> R -> Prop) xs : forall r1 r2,
   sim_list P xs r1 r2 ->
